@@ -8,7 +8,6 @@ The Service object is made with Service.__new__ + attribute assignment (the cons
 SQL cache and calls blockcount() over the network).  The code that runs on it is the unmodified
 bitcoinlib/services/services.py.
 """
-import datetime as _dt
 import bitcoinlib.services.services as SV
 import bitcoinlib.services.baseclient as BC
 from bitcoinlib import services as SP
@@ -72,10 +71,25 @@ class NullLog:
         return lambda *a, **k: None
 
 
+class _Delta:
+    def total_seconds(self):
+        return 0.0
+
+
+class _Instant:
+    """a frozen clock reading (a real datetime object would be modelled symbolically by CrossHair, at 4 ms apiece)"""
+    def __sub__(self, other):
+        return _DELTA
+
+
+_DELTA = _Delta()
+_NOW = _Instant()
+
+
 class FakeDT:
     @staticmethod
     def now():
-        return _dt.datetime(2020, 1, 1)
+        return _NOW
 
 
 class FakeTime:
